@@ -316,6 +316,14 @@ def r6(ctx):
     from .c18 import frame_agreement, splice_purity
     frame_agreement(ctx, "R6")
     splice_purity(ctx, "R6")
+    # every front end drops the same conflicting edits: all overlap filters of the workspace (CLI accept loop, LSP fix-all, library
+    # replace_all, rewriters) put `start == previous end` on the non-overlapping side (C01 R9)
+    from .c01 import r9 as overlap_boundary
+    from ..core import Ctx
+    sub = Ctx("C01", ctx.tier, ctx.prog)
+    overlap_boundary(sub)
+    for o in sub.obligations:
+        ctx.ob("R6", o["key"].split(":", 1)[1], o["ok"], o["detail"], where=o["where"], nontrivial=o.get("nontrivial", True))
 
 
 from ..query import TRANSPARENT
